@@ -217,7 +217,10 @@ void apply_knobs(const Knobs& k, uint64_t seed) {
 }
 
 // Fresh objects: the same program, a different environment.
-std::string fresh_reference(const RoundSpec& s, const Knobs& fresh_knobs, uint64_t seed, std::vector<uint32_t>& errors, std::string* log_text, bool fresh_logger, bool fresh_validate) {
+std::string fresh_reference(const RoundSpec& s_in, const Knobs& fresh_knobs, uint64_t seed, std::vector<uint32_t>& errors, std::string* log_text, bool fresh_logger, bool fresh_validate, bool through_assembler = false) {
+  // (through_assembler: the program of a Builder round is emitted directly by an Assembler - a Builder records the calls and
+  // replays them, so the output must be the same)
+  RoundSpec s = s_in; if (through_assembler) s.emitter_kind = kAsm;
   apply_knobs(fresh_knobs, seed ^ 0xF8E5);
   std::string snap;
   {
@@ -335,7 +338,12 @@ void execute_rounds(const Plan& plan) {
         sim::end_op();
         Knobs fk = knobs_from(kr);
         bool fresh_logger = kr.chance(1, 2) ? s.logger : !s.logger, fresh_validate = kr.chance(1, 2);
-        std::string fresh_snap = fresh_reference(s, fk, plan.seed + i, errs_fresh, &fresh_log, fresh_logger, fresh_validate);
+        bool cross = s.emitter_kind == kBuilder && !s.raw_node && s.mode == 0 && kr.chance(1, 3);
+        // (a Builder groups its nodes by section, so a program that switches sections is serialised in another order than it
+        // was written: bytes agree, the order of relocation entries does not - such programs are not cross-compared)
+        if (cross) { gen::Program pp = make_program(s); for (auto& st : pp.steps) if (st.kind == gen::StepKind::kNewSection || st.kind == gen::StepKind::kSection) cross = false; }
+        if (cross) sim::count("c16.probe.builder_round_compared_with_assembler");
+        std::string fresh_snap = fresh_reference(s, fk, plan.seed + i, errs_fresh, &fresh_log, fresh_logger, fresh_validate, cross);
         apply_knobs(recycled_knobs, plan.seed);
         sim::begin_op(Op(), i);
         if (recycled_snap != fresh_snap) {
@@ -345,8 +353,8 @@ void execute_rounds(const Plan& plan) {
           std::string a = recycled_snap.substr(ls, 160), b = fresh_snap.substr(ls < fresh_snap.size() ? ls : 0, 160);
           sim::fail("c16:recycled-differs-from-fresh", "round %zu (recycle=%d, emitter=%d, target=%s): output on recycled objects differs from fresh objects\n  recycled: %s\n  fresh:    %s", i, recycle, s.emitter_kind, gen::target_name(s.target), a.c_str(), b.c_str());
         }
-        SIM_CHECK(errs_recycled == errs_fresh, "c16:error-codes-differ", "round %zu: the calls returned different error codes on recycled and fresh objects", i);
-        if (s.logger && fresh_logger && s.mode != 2 && log_comparable) SIM_CHECK(recycled_log == fresh_log, "c16:logger-text-differs", "round %zu: logger text differs between recycled and fresh objects (%zu vs %zu bytes)", i, recycled_log.size(), fresh_log.size());
+        if (!cross) SIM_CHECK(errs_recycled == errs_fresh, "c16:error-codes-differ", "round %zu: the calls returned different error codes on recycled and fresh objects", i);
+        if (s.logger && fresh_logger && s.mode != 2 && log_comparable && !cross) SIM_CHECK(recycled_log == fresh_log, "c16:logger-text-differs", "round %zu: logger text differs between recycled and fresh objects (%zu vs %zu bytes)", i, recycled_log.size(), fresh_log.size());
         rounds_compared++;
         sim::count("c16.probe.round_compared");
         if (recycle == kReinit) sim::count("c16.probe.compared_after_reinit");
@@ -575,7 +583,17 @@ void execute_handlers(const Plan& plan) {
     CodeHolder* now = o.code.get();
     if (how == 0) { o.code->reset(plan.get("hard", 0) ? ResetPolicy::kHard : ResetPolicy::kSoft); SIM_CHECK(o.code->init(env) == Error::kOk, "c16:setup", "init failed"); o.code->set_error_handler(hb.get()); SIM_CHECK(o.code->attach(&e) == Error::kOk, "c16:setup", "attach failed"); }
     else if (how == 1) { SIM_CHECK(o.code->reinit() == Error::kOk, "c16:setup", "reinit failed"); o.code->set_error_handler(hb.get()); }
-    else { SIM_CHECK(o.code->detach(&e) == Error::kOk, "c16:setup", "detach failed"); SIM_CHECK(other.init(env) == Error::kOk, "c16:setup", "init failed"); other.set_error_handler(hb.get()); SIM_CHECK(other.attach(&e) == Error::kOk, "c16:setup", "attach failed"); now = &other; }
+    else if (how == 2) { SIM_CHECK(o.code->detach(&e) == Error::kOk, "c16:setup", "detach failed"); SIM_CHECK(other.init(env) == Error::kOk, "c16:setup", "init failed"); other.set_error_handler(hb.get()); SIM_CHECK(other.attach(&e) == Error::kOk, "c16:setup", "attach failed"); now = &other; }
+    else if (how == 3) {
+      // reset() + init() and NO new handler: the holder - and with it every emitter that inherits from it - has none
+      o.code->reset(plan.get("hard", 0) ? ResetPolicy::kHard : ResetPolicy::kSoft); SIM_CHECK(o.code->init(env) == Error::kOk, "c16:setup", "init failed"); SIM_CHECK(o.code->attach(&e) == Error::kOk, "c16:setup", "attach failed");
+      ha.reset();
+      SIM_CHECK(o.code->error_handler() == nullptr && e.error_handler() == nullptr, "c16:residue-error-handler", "after reset() + init() the holder still has error handler %p and the emitter reports to %p (both belong to the holder's previous life)", (void*)o.code->error_handler(), (void*)e.error_handler());
+      (void)e.embed_data_array(TypeId(250), junk, 2, 1);
+      if (kind != 0 && e.is_initialized()) { (void)o.code->detach(&e); }
+      sim::count("c16.probe.reset_without_new_handler");
+    }
+    if (how != 3) {
     // the first handler goes away (poisoned by the sanitizer): whoever still references it is caught
     ha.reset();
     SIM_CHECK(e.error_handler() == hb.get(), "c16:residue-error-handler", "after recycling (%d) the emitter reports to %p, the holder's handler is %p", how, (void*)e.error_handler(), (void*)hb.get());
@@ -583,6 +601,7 @@ void execute_handlers(const Plan& plan) {
     SIM_CHECK(hb->count >= 1, "c16:residue-error-handler", "an error after recycling (%d) did not reach the handler of the holder the emitter is attached to", how);
     (void)now;
     if (kind != 0 && e.is_initialized()) { (void)now->detach(&e); }
+    }
   }
   sim::end_op();
   sim::mark_nontrivial();
@@ -596,7 +615,7 @@ Plan generate_handlers(uint64_t seed, bool) {
   Rng cfg = sim::stream(seed, "cfg");
   p.set("target", int64_t(cfg.below(3)));
   p.set("emitter", int64_t(cfg.below(3)));
-  p.set("recycle", int64_t(cfg.below(3)));
+  p.set("recycle", int64_t(cfg.below(4)));
   p.set("hard", int64_t(cfg.below(2)));
   Op op; op.kind = kRound; op.a[0] = 0; op.a[1] = int64_t(cfg.next() & 0x7fffffffffffll); op.a[2] = int64_t(5 + cfg.below(30)); op.a[3] = 0;
   p.ops.push_back(op);
